@@ -998,6 +998,10 @@ func c10GoValues() []goValue {
 		goValue{"map[string]int", "{ff:1, fe:2}", map[string]int{"\xff": 1, "\xfe": 2}, nil}, goValue{"[]any", "[{80: 1}]", []any{map[string]any{"\x80": 1}}, nil},
 		goValue{"map[string]any", "{a:{f0 9f: 1}}", map[string]any{"a": map[string]int{"\xf0\x9f": 1}}, nil}, goValue{"named-map", "{ff: 1}", myMap{"k\xffk": 1}, nil},
 		goValue{"map[string]string", "{U+FFFD: a, ff: b}", map[string]string{"\uFFFD": "a", "\xff": "b"}, nil},
+		// Go maps that merely look like the DAG-JSON spelling of a link or of bytes: they are maps
+		goValue{"map[string]any", "{/: cid text}", map[string]any{"/": cidPool[1].String()}, nil}, goValue{"map[string]string", "{/: cid text}", map[string]string{"/": cidPool[1].String()}, nil},
+		goValue{"map[string]any", "{/: {bytes: AAEC}}", map[string]any{"/": map[string]any{"bytes": "AAEC"}}, nil}, goValue{"map[string]any", "{/: {bytes: empty}}", map[string]any{"/": map[string]string{"bytes": ""}}, nil},
+		goValue{"[]any", "[{/: cidv0 text}]", []any{map[string]any{"/": cid.NewCidV0(cidPool[1].Hash()).String()}}, nil}, goValue{"map[string]any", "{a:{/: cid text}}", map[string]any{"a": map[string]string{"/": cidPool[2].String()}}, nil},
 		goValue{"*string", "ptr(s)", func() *string { x := "s"; return &x }(), nil}, goValue{"**int", "ptr(ptr(4))", func() **int { x := 4; y := &x; return &y }(), nil},
 		goValue{"*[]int", "ptr([1,2])", &[]int{1, 2}, nil}, goValue{"*map", "ptr({a:1})", &map[string]int{"a": 1}, nil},
 		goValue{"*int", "nil pointer", nilPtr, nil}, goValue{"map", "nil map", nilMap, nil}, goValue{"[]int", "nil slice", nilSlice, nil},
